@@ -25,6 +25,9 @@ func Scenarios(prop string) []gx.Sc {
 			// two members, one partition, both rejoin: one of them runs a session without any claim
 			{Name: "cg?m=2&np=1&n=2&mode=all&ns=2&gates=" + g + "&faults=" + f + ca, Q: 1, T: 2},
 			{Name: "cg?m=1&np=1&n=2&mode=all&ns=1&cleanerr=1&gates=" + g + "&faults=" + f + ca, Q: 2, T: 3},
+			// the coordinator cannot be found for a while (before the first join, or when a rebalance has to look it up again):
+			// a close in that period must complete, the member must not keep asking for ever
+			{Name: "cg?m=1&np=1&n=2&mode=all&ns=1&coordenv=1&gates=" + g + "&faults=sync-notcoord,hb-rebalance" + ca, Q: 2, T: 3},
 		}
 	}
 	return []gx.Sc{
@@ -37,6 +40,9 @@ func Scenarios(prop string) []gx.Sc {
 		{Name: "cg?m=1&np=1&n=2&mode=all&ns=1&setuperr=1&gates=" + gates + "&faults=" + faults + ca, Q: 2, T: 3},
 		{Name: "cg?m=1&np=1&n=2&mode=all&ns=2&strategy=sticky&gates=" + gates + "&faults=" + faults + ca, Q: 2, T: 3},
 		{Name: "cg?m=2&np=2&n=2&mode=all&ns=2&strategy=roundrobin&gates=" + gates + "&faults=" + faults + ca, Q: 1, T: 2},
+		// the lookup of the partition's offsets fails while a claim opens its partition consumer (ListOffsets answered
+		// NOT_LEADER, connection lost): the claim may fail, it must not start anywhere else than at the committed offset
+		{Name: "cg?m=1&np=1&n=3&mode=k1&ns=2&init=valid&gates=" + gates + "&faults=offsets-notleader,offsets-drop,hb-rebalance" + ca, Q: 2, T: 3},
 		// no rebalance retries at all (Rebalance.Retry.Max = 0): every budget-bound branch of a rebalance is on its last attempt
 		{Name: "cg?m=1&np=1&n=2&mode=all&ns=2&rbmax=0&gates=" + gates + "&faults=" + faults + ca, Q: 2, T: 3},
 	}
